@@ -274,6 +274,16 @@ def run(ck):
                 ck.verdict(T.path_has(ve, c.args[0], ".token"), "4", "T6-provenance", ve, "increment_version(slot.token)", "the bumped value is the slot's own token", "increment_version is not applied to the slot's token", site=ve.where(c.bb))
 
     slots_never_removed(ck, "4")
+    rd = ck.opt_body("LoopHandle::register_dispatcher")
+    if rd is None:
+        ck.anchor_missing("4", "T6-provenance", "LoopHandle::register_dispatcher")
+    else:
+        ve_calls = [c.bb for c in T.calls(rd, name="vacant_entry")]
+        rets = [st for i, j, st in rd.statements() if st["s"] == "assign" and st["rv"]["r"] == "agg" and st["rv"].get("adt", "").endswith("RegistrationToken") and not rd.is_cleanup(i)]
+        ok = bool(rets) and all(T.resolves_to_call(rd, st["rv"]["fields"][0], ve_calls) and T.path_has(rd, st["rv"]["fields"][0], ".token") for st in rets)
+        ck.verdict(ok, "4", "T6-provenance", rd, "returned-token=filled-slot.token", "the RegistrationToken handed to the user is the token (id + current generation) of the slot that was just filled", "register_dispatcher does not return the token of the slot it filled", site=rd.where())
+        tf = T.calls(rd, name="new", path="TokenFactory::new")
+        ck.verdict(bool(tf) and all(T.resolves_to_call(rd, c.args[0], ve_calls) and T.path_has(rd, c.args[0], ".token") for c in tf), "4", "T6-provenance", rd, "registers-under-filled-slot.token", "the source is registered under the filled slot's token", "register_dispatcher does not register the source under the filled slot's token", site=rd.where())
 
     # ---- clause 5: built-in sources ignore events that are not theirs ----------------------------------------
     for q, own in (("<Generic as EventSource>::process_events", "Generic.token"), ("<Timer as EventSource>::process_events", "registration.token")):
